@@ -828,11 +828,10 @@ func (e *Env) evalCall(c *ast.CallExpr) (Val, error) {
 		if err != nil {
 			return Val{}, err
 		}
-		r := rootOf(a.T)
-		if r.Op == "zz_new" {
-			return Val{tTrue, boolT}, nil
+		if a.T.Sort == "Slice" {
+			return Val{tFresh(slBase(a.T)), boolT}, nil
 		}
-		return Val{mk("Bool", "zz_isnew", a.T), boolT}, nil
+		return Val{tFresh(a.T), boolT}, nil
 	case "has":
 		m, err := e.eval(c.Args[0])
 		if err != nil {
@@ -1290,7 +1289,8 @@ func (e *Env) evalLocs(x ast.Expr) ([]modLoc, error) {
 					return nil, fmt.Errorf("mapof() needs map")
 				}
 				dom, val := e.v.mapHeaps(e.st, mt)
-				return []modLoc{{kind: "exact", key: dom.Key, addr: m.T, sort: dom.ElSort}, {kind: "exact", key: val.Key, addr: m.T, sort: val.ElSort}}, nil
+				nn := tNot(tEq(m.T, tNilP))
+				return []modLoc{{kind: "exact", key: dom.Key, addr: m.T, sort: dom.ElSort, guard: nn}, {kind: "exact", key: val.Key, addr: m.T, sort: val.ElSort, guard: nn}}, nil
 			case "mapsof":
 				ty, err := e.resolveType(c.Args[0])
 				if err != nil {
